@@ -234,6 +234,20 @@ func debugf(format string, args ...interface{}) {
 	}
 }
 
+// completeSchema completes the evaluated defaults of every field (see
+// complete), so that ref.Normalise compares objects with whole defaults.
+func completeSchema(sch *ref.Schema) {
+	for _, st := range sch.Structs {
+		for _, f := range st.Fields {
+			if f.HasDef && f.Default != nil {
+				if d, ok := complete(f.Type, f.Default, 32); ok {
+					f.Default = d
+				}
+			}
+		}
+	}
+}
+
 func harness(format string, args ...interface{}) error {
 	return fmt.Errorf("harness: "+format, args...)
 }
@@ -250,6 +264,7 @@ func open(c fastCase) (*env, *outcome) {
 	if err != nil {
 		return nil, &outcome{status: "harness", err: harness("%v", err)}
 	}
+	completeSchema(sch)
 	st := sch.ByName(c.Struct)
 	if st == nil {
 		return nil, &outcome{status: "harness", err: harness("struct %s not in schema", c.Struct)}
@@ -537,7 +552,7 @@ func (e *env) compareReads(resp map[string]interface{}, in []byte, what string, 
 	}
 	if want != nil && !ref.Equal(fv, want) {
 		vt.Class("both_differ_from_reference") // C02's business
-		debugf("both_differ_from_reference %s on %s\n  got  %s\n  want %s", name, what, ref.Show(fv), ref.Show(want))
+		debugf("both_differ_from_reference %s on %s || got  %s || want %s", name, vt.Truncate(what, 60), vt.Truncate(ref.Show(fv), 300), vt.Truncate(ref.Show(want), 300))
 	}
 	return nil
 }
@@ -1265,6 +1280,7 @@ func TestFast(t *testing.T) {
 		p := idl.Gen(rt, modelCfg())
 		narrow(p)
 		sch := ref.Build(p)
+		completeSchema(sch)
 		if len(sch.Structs) == 0 {
 			rt.Skip("no struct-like in the program")
 		}
